@@ -660,7 +660,9 @@ class TransverselyIsotropic(_Elastic):
 
         kt = self.kt
 
-        dtype = object if isinstance(kt, np.ndarray) else float
+        # kt does not depend on Gl: look at every constant
+        isArray = [isinstance(p, np.ndarray) for p in (El, Et, Gl, vl, vt)]
+        dtype = object if True in isArray else float
 
         # Kelvin-Mandel compliance and stiffness matrices in the material's coordinate system.
         # L = (1, 0, 0)
